@@ -13,6 +13,7 @@ pub mod c19;
 pub mod c08;
 pub mod c07;
 pub mod c05;
+pub mod c10;
 pub mod smoke;
 pub mod exp;
 pub mod c01;
@@ -47,6 +48,7 @@ pub fn plan(id: &str, tier: &str) -> Option<Plan> {
         "C08" => Some(Plan::new(if _t { 48 } else { 12 }, 1500)),
         "C07" => Some(Plan::new(if _t { 40 } else { 12 }, 1500)),
         "C05" => Some(Plan::new(if _t { 40 } else { 12 }, 1500)),
+        "C10" => Some(Plan::new(if _t { 40 } else { 12 }, 1500)),
         _ => None,
     }
 }
@@ -65,6 +67,7 @@ pub fn spec(id: &str) -> Option<Spec> {
         "C08" => Some(c08::spec()),
         "C07" => Some(c07::spec()),
         "C05" => Some(c05::spec()),
+        "C10" => Some(c10::spec()),
         _ => None,
     }
 }
@@ -83,6 +86,7 @@ pub fn worker(ctx: &WorkerCtx) -> WorkerReport {
         "C08" => c08::worker(ctx),
         "C07" => c07::worker(ctx),
         "C05" => c05::worker(ctx),
+        "C10" => c10::worker(ctx),
         other => {
             let mut r = WorkerReport::default();
             r.inconclusive(format!("no worker for {}", other));
